@@ -155,4 +155,14 @@ theorem src_isolation (cs : List (List Field)) (plans : List Plan)
       rw [readAll_eq_runOut] at hvals
       simp only [hvals]
 
+/-! Non-vacuity (tests, labelled as such): the hypotheses are met by concrete lists, and the translated writer / reader really
+    run on them. -/
+example : wellFormed sampleItems = true := by decide
+example : srcWriteAll (wsview {}) (sampleItems.map Item.writeOp)
+    = .ok (ofBytes (Writer.run {} (sampleItems.map Item.writeOp)).data, false) := by decide
+example : (srcRunOut (rview (Reader.new (Writer.run {} (sampleItems.map Item.writeOp)).data)) (sampleItems.map Item.readOp)).2
+    = sampleItems.map (fun i => .ok (toS i.expect)) := by decide
+example : ∀ c ∈ sampleChunks, chunkOk c = true := by decide
+example : samplePlans.length = sampleChunks.length := by decide
+
 end EoVerif.SrcProps
